@@ -99,6 +99,15 @@ class CallMixin:
       if b[0] == 'adt':
         return V(adt, adt.make(ctor, ts))
       return V(rec, rec.make(ts))
+    if b[0] == 'heap':
+      r = self.heap_new((cref.module.relpath, cref.name), b)
+      q = cref.module.resolve_method(cref.name, '__init__')
+      if q is None:
+        raise Unsupported('%s has no __init__' % cref.name)
+      fdef = cref.module.func(q)
+      fr = FuncRef(cref.module, q, bound_self=r)
+      self.call_inline(fr, fdef, self.bind_args(fdef, args, kwargs, fr))
+      return r
     if b[0] == 'obj':
       o = Obj(cref.name, cref.module, {})
       q = cref.module.resolve_method(cref.name, '__init__')
@@ -199,6 +208,9 @@ class CallMixin:
   def call_inline(self, fr, fdef, bound):
     saved = (self.env, self.cur_module, self.cur_contract, self.loop_ordinals, self.aliases)
     self.env = dict(bound)
+    for hn, hv in saved[0].items():
+      if hn.startswith('$H.'):
+        self.env[hn] = hv         # the heap is global state
     self.cur_module = fr.module
     self.aliases = {}
     self.depth += 1
@@ -210,7 +222,9 @@ class CallMixin:
       return r.value
     finally:
       self.depth -= 1
+      heap_now = {hn: hv for hn, hv in self.env.items() if hn.startswith('$H.')}
       self.env, self.cur_module, self.cur_contract, self.loop_ordinals, self.aliases = saved
+      self.env.update(heap_now)   # writes of the callee to heap objects are visible to the caller
 
   def call_contract(self, c, bound, node):
     """Modular call: assert pre, havoc, assume post (callee body not looked at)."""
@@ -227,6 +241,9 @@ class CallMixin:
       env[pn] = v
     saved_env, saved_mod = self.env, self.cur_module
     self.env = dict(env)
+    for hn, hv in saved_env.items():
+      if hn.startswith('$H.'):
+        self.env[hn] = hv
     self.cur_module = source.load(self.repo, c.file)
     try:
       for j, r in enumerate(c.requires):
@@ -479,6 +496,12 @@ class CallMixin:
       si = S.Seq(S.INT)
       p = z3.FreshConst(z3.IntSort(), 'p')
       return V(si, si.mk(z3.Lambda([p], z3.simplify(lo + p)), z3.simplify(z3.If(hi > lo, hi - lo, z3.IntVal(0)))))
+    if isinstance(it, tuple) and it and it[0] == 'enumerate':
+      inner = self.iter_to_seq(it[1], node)
+      ts = S.Tup(S.INT, inner.sort.elem)
+      p = z3.FreshConst(z3.IntSort(), 'p')
+      arr = z3.Lambda([p], ts.make([p, inner.sort.at(inner.t, p)]))
+      return V(S.Seq(ts), S.Seq(ts).mk(arr, inner.sort.len(inner.t)))
     if isinstance(it, tuple) and it and it[0] == 'dict_items':
       d = it[1]
       s = d.sort
